@@ -187,6 +187,13 @@ func (m *engine64) apply(op int) c12Obs {
 			m.e.(interface {
 				AddPaths(clipper.PathsD, clipper.PathType, bool)
 			}).AddPaths(clipper.Paths64ToPathsD(ps), pt, open)
+		} else if op == 4 {
+			// the single-path entry point, once per path
+			for _, p := range ps {
+				m.e.(interface {
+					AddPath(Path, clipper.PathType, bool)
+				}).AddPath(p, pt, open)
+			}
 		} else {
 			m.e.(interface {
 				AddPaths(Paths, clipper.PathType, bool)
@@ -293,7 +300,7 @@ func (m *engine64) dump(full bool) string {
 
 func engineModel(isD, fullCfg bool, maxAdds int) *c12Model {
 	cfgs := c12Cfgs(fullCfg)
-	ops := []string{"AddPaths(S1, Subject, closed)", "AddPaths(S2, Subject, closed)", "AddPaths(C1, Clip, closed)", "AddPaths(O1, Subject, open)", "AddPaths({S1[0],S2[0]}, Subject, closed)"}
+	ops := []string{"AddPaths(S1, Subject, closed)", "AddPaths(S2, Subject, closed)", "AddPaths(C1, Clip, closed)", "AddPaths(O1, Subject, open)", "AddPath(S1[0]); AddPath(S2[0]) (AddPaths of both for ClipperD)"}
 	isAdd := []bool{true, true, true, true, true}
 	forms := []string{"Execute", "ExecuteOC", "ExecutePolyTree"}
 	modes := []string{"fresh solution", "solution pre-loaded with junk", "solution object of the previous call"}
